@@ -1388,6 +1388,15 @@ package spine
 //@   loop 1 invariant i-references: forall k int :: old(cdn) <= k && k < cdn ==> cdaddr[k] == remoteDeviceAddress
 //@   loop 1 invariant i-paired: cwn - old(cwn) == cdn - old(cdn)
 
+// removing the connection: the teardown above, then exactly one more event - the removal of this device (C10)
+//@ func (*DeviceLocal).RemoveRemoteDeviceConnection
+//@   requires r != nil && r.subscriptionManager != nil && r.bindingManager != nil
+//@   let RD = r.remoteDevices[ski]
+//@   ensures[C10] device-event-last: ev[evn - 1].EventType == api.EventTypeDeviceChange && ev[evn - 1].ChangeType == api.ElementChangeRemove && ev[evn - 1].Ski == ski && (old(has(r.remoteDevices, ski)) ==> ev[evn - 1].Device == old(RD))
+//@   ensures[C10] unresolvable: !(has(r.remoteDevices, ski) && r.remoteDevices[ski] != nil)
+//@   ensures[C10] others-resolvable: forall s string :: s != ski ==> has(r.remoteDevices, s) == old(has(r.remoteDevices, s)) && r.remoteDevices[s] == old(r.remoteDevices[s])
+//@   modifies map(gomap[string]api.DeviceRemoteInterface), @PUBLISH, world, held, wm, cwn, cwski, cdn, cdaddr, timers, new(model.DeviceAddressType)
+
 // ---------------------------------------------------------------------------------------
 // local data changes are announced exactly once (C08): a successful SetData / UpdateData asks the device to notify the
 // subscribers of this feature once, with the notify command of the changed function; a failed one asks for nothing
